@@ -133,6 +133,7 @@ enum Phase { P_IDLE, P_CONNECT, P_RUN, P_SETTLE, P_FLUSH };
 static Phase g_phase = P_IDLE; static int g_tries = 0, g_idle = 0, g_waited = 0, g_flush = 0; static long long g_lastev = 0;
 static int g_seq = 0;
 static int g_wait_budget = 12000;      // ms
+static long g_waited_total = 0;
 
 static void set_nb(int fd) { int f = fcntl(fd, F_GETFL, 0); fcntl(fd, F_SETFL, f | O_NONBLOCK); }
 static void exec_op(const json &op, bool in_cb);
@@ -359,9 +360,10 @@ static bool settle_step() {     // one call per loop pass; true when quiescent
     g_lastev = g_events; (void)before;
     if (moved) { g_idle = 0; return false; }
     if (++g_idle < 4) return false;
-    // loopback TCP is asynchronous in principle: wait a little while data is known to be in flight.  The total waiting of one
+    // loopback TCP is asynchronous (Nagle + delayed ACK hold small segments back for ~40 ms): wait while data is known to be in flight.  The total waiting of one
     // process is bounded, so a tree on which many executions are stuck is still reported quickly.
-    if (X->tcp && need_more() && g_waited < 3000 && g_wait_budget > 0) { poll(nullptr, 0, 5); g_waited += 5; g_wait_budget -= 5; return false; }
+    if (X->tcp && need_more() && g_waited < 3000 && g_wait_budget > 0) { poll(nullptr, 0, 5); g_waited += 5; g_wait_budget -= 5; g_waited_total += 5; return false; }
+    if (!need_more()) g_wait_budget += g_waited;     // waiting that ended in completion does not use up the budget
     return true;
 }
 
@@ -421,5 +423,6 @@ int main(int argc, char **argv) {
     g_loop->runLoop(event::Loop::Mode::kForever);
     delete g_loop;
     vh::T().close();
+    fprintf(stderr, "waited_ms=%ld\n", g_waited_total);
     return 0;
 }
